@@ -718,6 +718,38 @@ fn generate(seed: u64, tier: Tier, em: &mut Emitter) {
             emit_load(em, vec![b; 64], &base, true, &["junk"]);
         }
     }
+    // UTF-8 validation of a decoded string (exec_mode is not covered by the checksum, so a valid
+    // replacement loads): boundary sweep over 4-byte windows around every row of Unicode Table 3-7
+    {
+        let s = st("p", 1, 5, 2, "abcd", 3, "m", 50);
+        let base = [s.meta()];
+        let (img, prefixes) = s.encode();
+        let at = prefixes[2] + 1;
+        let b0s: Vec<u8> = if thorough {
+            (0..=255u8).collect()
+        } else {
+            vec![0x00, 0x7F, 0x80, 0xBF, 0xC0, 0xC1, 0xC2, 0xDF, 0xE0, 0xE1, 0xEC, 0xED, 0xEE, 0xEF, 0xF0,
+                 0xF1, 0xF3, 0xF4, 0xF5, 0xF7, 0xF8, 0xFF]
+        };
+        for &b0 in &b0s {
+            for b1 in [0x61u8, 0x7F, 0x80, 0x8F, 0x90, 0x9F, 0xA0, 0xBF, 0xC0] {
+                for b2 in [0x61u8, 0x80, 0xBF, 0xC0] {
+                    for b3 in [0x61u8, 0x80, 0xBF] {
+                        let mut f = img.clone();
+                        f[at..at + 4].copy_from_slice(&[b0, b1, b2, b3]);
+                        emit_load(em, f, &base, true, &["utf8-sweep"]);
+                    }
+                }
+            }
+        }
+        // sequences cut off by the end of the string
+        for tail in [[0x61u8, 0x61, 0x61, 0xC2], [0x61, 0x61, 0xE2, 0x82], [0x61, 0xF0, 0x9F, 0x98],
+                     [0x61, 0x61, 0x61, 0xE0], [0x61, 0x61, 0x61, 0xF4], [0x61, 0x61, 0xF0, 0x90]] {
+            let mut f = img.clone();
+            f[at..at + 4].copy_from_slice(&tail);
+            emit_load(em, f, &base, true, &["utf8-sweep", "cut"]);
+        }
+    }
     let n_junk = if thorough { 3000 } else { 300 };
     for _ in 0..n_junk {
         let s = &small[rng.below(3) as usize];
@@ -791,6 +823,17 @@ fn generate(seed: u64, tier: Tier, em: &mut Emitter) {
             true,
             &["hist", "ties"],
         );
+    }
+    // numeric, not lexicographic, order of the timestamps in the file names (9 < 10 < 99 < 100)
+    for max in [Value::Null, json!(1), json!(2), json!(3)] {
+        for order in [[9u64, 10, 99, 100], [100, 99, 10, 9], [10, 9, 100, 99], [99, 100, 9, 10]] {
+            let ops: Vec<Value> = order.iter().map(|t| json!(["save", "p", t])).collect();
+            em.case("hist", json!([max, true, ["checkpoint_p_8.bin", "checkpoint_p_1000.bin"], ops, ["p"]]),
+                    true, &["hist", "numeric-order"]);
+        }
+        em.case("hist", json!([max, false, ["checkpoint_p_4.bin", "checkpoint_q_1.bin"],
+                               [["save", "p", 5], ["save", "q", 3], ["save", "p", 1], ["clear", "q"]], ["p", "q"]]),
+                true, &["hist", "disabled"]);
     }
     // ids that cannot be part of a file name: the save fails and nothing changes
     let long_id = "q".repeat(240);
